@@ -164,9 +164,19 @@ def _round32(v):
         return v
 
 
-def compare_with_ref(df, rt, mode, check_order=True):
-    """Compare an exported frame with a REF table. Returns (problem | None, judged_as)."""
+def compare_with_ref(df, rt, mode, check_order=True, single_precision_inputs=False):
+    """Compare an exported frame with a REF table. Returns (problem | None, judged_as).
+    single_precision_inputs: a source table of the program has a Float32 column - a Float64 result computed from it
+    (e.g. count + mean(f32)) carries single precision only, REF computes in double: floats are compared with REL 2e-6."""
+    global REL
     names, rows = frame_table(df)
+    if single_precision_inputs:
+        old0 = REL
+        REL = 2e-6
+        try:
+            return compare_with_ref(df, rt, mode, check_order, False)
+        finally:
+            REL = old0
     # a Float32 column carries single precision: compare after rounding both sides to float32 (REF computes in double)
     import polars as pl
 
@@ -179,7 +189,6 @@ def compare_with_ref(df, rt, mode, check_order=True):
         exp = None
         loose = False
     if loose:
-        global REL
         old = REL
         REL = 2e-6
         try:
